@@ -21,3 +21,9 @@ run C15-b C15
 run C16-b C16
 run C17-b C17
 run C20-b C20
+run C02-c C02
+run C05-c C05
+run C06-c C06
+run C08-c C08
+run C09-c C09
+run C11-c C11
